@@ -460,7 +460,8 @@ end IntSort
 
 namespace IntSort
 
-theorem ninther_spec (cf : Cfg) (hD : 3 ≤ cf.nintherDiv) (hM0 : 0 ≤ cf.nintherMul) (hMD : cf.nintherMul < cf.nintherDiv)
+theorem ninther_spec (cf : Cfg) (hD : 3 ≤ cf.nintherDiv) (hM0 : 0 ≤ cf.nintherMul ∧ 0 ≤ cf.nintherMul2)
+    (hMD : cf.nintherMul < cf.nintherDiv ∧ cf.nintherMul2 < cf.nintherDiv)
     (d : Data) (lo hi : Int) (hlo : 0 ≤ lo) (hbig : hi - lo ≥ 1) (hsz : hi ≤ d.size) :
     ∃ d0, ninther cf d lo hi ((lo + hi) / 2) = .ok d0 ∧ RP lo hi d d0 := by
   unfold ninther
@@ -474,12 +475,15 @@ theorem ninther_spec (cf : Cfg) (hD : 3 ≤ cf.nintherDiv) (hM0 : 0 ≤ cf.ninth
     have hDs : cf.nintherDiv * ((hi - lo) / cf.nintherDiv) ≤ hi - lo := Int.mul_ediv_self_le (by omega)
     generalize (hi - lo) / cf.nintherDiv = s at hs0 hDs ⊢
     have h3s : 3 * s ≤ cf.nintherDiv * s := Int.mul_le_mul_of_nonneg_right hD hs0
-    have hP0 : 0 ≤ cf.nintherMul * s := Int.mul_nonneg hM0 hs0
+    have hP0 : 0 ≤ cf.nintherMul * s := Int.mul_nonneg hM0.1 hs0
     have hP1 : cf.nintherMul * s ≤ (cf.nintherDiv - 1) * s := Int.mul_le_mul_of_nonneg_right (by omega) hs0
+    have hQ0 : 0 ≤ cf.nintherMul2 * s := Int.mul_nonneg hM0.2 hs0
+    have hQ1 : cf.nintherMul2 * s ≤ (cf.nintherDiv - 1) * s := Int.mul_le_mul_of_nonneg_right (by omega) hs0
     have hP2 : (cf.nintherDiv - 1) * s = cf.nintherDiv * s - s := by rw [Int.sub_mul, Int.one_mul]
     generalize cf.nintherMul * s = P at hP0 hP1 ⊢
+    generalize cf.nintherMul2 * s = P' at hQ0 hQ1 ⊢
     generalize cf.nintherDiv * s = Ds at hDs h3s hP2
-    have hPn : P ≤ hi - lo - 1 := by
+    have hPn : P ≤ hi - lo - 1 ∧ P' ≤ hi - lo - 1 := by
       by_cases hz : s = 0
       · subst hz; omega
       · omega
@@ -491,7 +495,7 @@ theorem ninther_spec (cf : Cfg) (hD : 3 ≤ cf.nintherDiv) (hM0 : 0 ≤ cf.ninth
       ⟨by omega, by omega⟩ ⟨by omega, by omega⟩ ⟨by omega, by omega⟩ hlo (by rw [hrp1.1]; exact hsz)
     rw [hr2]
     simp only
-    obtain ⟨d3, hr3, hrp3⟩ := medianOfThree_rp d2 (hi - 1) (hi - 1 - s) (hi - 1 - P) lo hi
+    obtain ⟨d3, hr3, hrp3⟩ := medianOfThree_rp d2 (hi - 1) (hi - 1 - s) (hi - 1 - P') lo hi
       ⟨by omega, by omega⟩ ⟨by omega, by omega⟩ ⟨by omega, by omega⟩ hlo (by rw [hrp2.1, hrp1.1]; exact hsz)
     exact ⟨d3, hr3, (hrp1.trans hrp2).trans hrp3⟩
   · rw [if_neg h40]
@@ -551,8 +555,9 @@ theorem protectStage_spec (d : Data) (lo hi pv a b c : Int) (protect : Bool) (hl
       rw [hrp.2.1 k (Or.inr (by omega))]; exact hR k hk1 hk2
 
 /-- the contract of `doPivot` that `quickSort` relies on -/
-theorem doPivot_spec (cf : Cfg) (hps : cf.pivotShift = 1) (hD : 3 ≤ cf.nintherDiv) (hM0 : 0 ≤ cf.nintherMul)
-    (hMD : cf.nintherMul < cf.nintherDiv) (hQ : cf.dupsDiv < 0 ∨ 3 ≤ cf.dupsDiv)
+theorem doPivot_spec (cf : Cfg) (hps : cf.pivotShift = 1) (hD : 3 ≤ cf.nintherDiv)
+    (hM0 : 0 ≤ cf.nintherMul ∧ 0 ≤ cf.nintherMul2)
+    (hMD : cf.nintherMul < cf.nintherDiv ∧ cf.nintherMul2 < cf.nintherDiv) (hQ : cf.dupsDiv < 0 ∨ 3 ≤ cf.dupsDiv)
     (d : Data) (lo hi : Int) (hlo : 0 ≤ lo) (hbig : hi - lo ≥ 3) (hsz : hi ≤ d.size) :
     PivotOK cf d lo hi := by
   unfold PivotOK doPivot
